@@ -22,13 +22,13 @@ def check(rep):
     ctx = Ctx(rep)
     rule_id_charset(ctx)
     PR.rule_compiles(ctx, rid="C13.SHAPE-COMPILES", strict=False)
-    PR.rule_renderers(ctx, rid="C13.TAINT", kinds=("str",))
+    PR.rule_renderers(ctx, rid="C13.TAINT", kinds=("str",), extra_safe=("json",))
     PR.rule_string_surface(ctx)
     n = PR.rule_placement(ctx)
     rep.floor("templates checked for hole placement", n, 180)
     PR.rule_constant_skeleton(ctx)
-    PR.rule_one_generator(ctx, rid="C13.EXEC-FED-BY-GENERATOR")
-    ER.rule_installed_function(ctx, rid="C13.EXEC", strict=True, facets=("exec-sites", "namespace"))
+    PR.rule_one_generator(ctx, rid="C13.EXEC-FED-BY-GENERATOR", only=("recompile",))
+    ER.rule_installed_function(ctx, rid="C13.EXEC", strict=True, facets=("exec-sites",))
     return ("Taint analysis from the lexer to the emitted text: the values of tokens whose pattern admits characters outside "
             "[A-Za-z0-9_] (strings) are followed through every production that mentions them (coverage sentences from the extracted "
             "grammar) and through the pydantic models into the generator's templates; each must enter the text through repr()/ascii() "
